@@ -1330,8 +1330,6 @@ func emitGraph(sc *gScen, tags []string, w *hx.Writer) *gRun {
 	scn := r.scenarioLine()
 	if sc.reentrant() {
 		scn = "#reentrant " + scn // callbacks that re-enter the factory are outside the machine model: oracle-only
-	} else if sc.retry() {
-		scn = "#retry " + scn
 	} else if sc.progQualified() {
 		scn = "#progq " + scn
 	}
